@@ -683,7 +683,9 @@ fn rgen(rng: &mut Rng, n: usize, sc: &Scope, depth: usize) -> String {
         }
         _ => {
             let (i, j) = split2(rng);
-            match rng.below(5) {
+            match rng.below(7) {
+                5 => format!("({})[{}:{}]", rgen(rng, i, sc, d), rgen(rng, j / 2 + 1, sc, d), rgen(rng, j / 2 + 1, sc, d)),
+                6 => format!("({})[{}:{}]?[{}]", rgen(rng, i, sc, d), rgen(rng, j / 3 + 1, sc, d), rgen(rng, j / 3 + 1, sc, d), rgen(rng, j / 3 + 1, sc, d)),
                 0 => format!("({})[{}]", rgen(rng, i, sc, d), rgen(rng, j, sc, d)),
                 1 => format!("({})[{}:]", rgen(rng, i, sc, d), rgen(rng, j, sc, d)),
                 2 => format!("({})[{}]?[]", rgen(rng, i, sc, d), rgen(rng, j, sc, d)),
@@ -774,6 +776,31 @@ fn pattern_programs(rng: &mut Rng, nrand: usize) -> Vec<String> {
                 out.push(format!("\"a\" as $k | def g(f): {bind}; g(\"b\")"));
             }
         }
+    }
+    out
+}
+
+
+/// paths with multi-valued / failing / empty index filters in every part kind (`f[x]`, `f[x:y]`, `f[x:]`,
+/// `f[:y]`, two parts, with `?`), also mentioning an outer variable and a filter argument: the order of the
+/// loops of `Path::explode` / `Part::into_iter` and the place where an index filter's error surfaces.
+fn index_programs() -> Vec<String> {
+    const ARR: &str = "[[0,1,2,3],[4,5,6,7],[8,9]]";
+    let atoms = ["0", "1", "(0, 1)", "(1, 0)", "(2, 3)", "empty", "error", "(1, error)", "$i", "f", "($i, f)", "(-1, 1)"];
+    let mut out = Vec::new();
+    let wrap = |body: String| format!("1 as $i | def g(f): {body}; g(2, 0)");
+    for a in atoms {
+        for b in atoms {
+            out.push(wrap(format!("{ARR}[0][{a}:{b}]")));
+            out.push(wrap(format!("{ARR}[{a}][{b}]")));
+            out.push(wrap(format!("[{ARR}[{a}:{b}][{a}]?]")));
+            out.push(wrap(format!("\"abcdef\"[{a}:{b}]")));
+        }
+        out.push(wrap(format!("{ARR}[{a}]")));
+        out.push(wrap(format!("{ARR}[{a}:][0]")));
+        out.push(wrap(format!("{ARR}[:{a}][]")));
+        out.push(wrap(format!("[{ARR}[{a}]?[1:{a}]]")));
+        out.push(wrap(format!("{ARR}[][{a}:(3, 2)]")));
     }
     out
 }
@@ -886,6 +913,13 @@ pub fn gen(args: &[String]) {
             emit(&mut id, "pat", p, &ins[..1]);
         }
     }
+    if what == "all" || what == "idx" {
+        let ps = index_programs();
+        eprintln!("c01 gen: {} index-filter programs", ps.len());
+        for p in &ps {
+            emit(&mut id, "idx", p, &ins[..1]);
+        }
+    }
     if what == "all" || what == "manual" {
         let ex = manual_examples();
         eprintln!("c01 gen: {} manual examples", ex.len());
@@ -942,7 +976,7 @@ pub fn main(args: &[String]) {
             }
         }
         _ => {
-            eprintln!("usage: jaqverif c01 prelude|gen [exh|rand|pat|manual]|run|table|sexpr");
+            eprintln!("usage: jaqverif c01 prelude|gen [exh|rand|pat|idx|manual]|run|table|sexpr");
             std::process::exit(2)
         }
     }
